@@ -2987,7 +2987,10 @@ def optimize_blockwise_fusion(expr):
             seen.add(next._name)
 
             if is_valid_blockwise_op(next):
-                dependencies[next._name] = set()
+                # insertion-ordered (operand order), so that the traversal below - and
+                # with it the member order and name of every Fused group - does not
+                # depend on string hashing
+                dependencies[next._name] = {}
                 if next._name not in dependents:
                     dependents[next._name] = set()
                     expr_mapping[next._name] = next
@@ -2997,7 +3000,7 @@ def optimize_blockwise_fusion(expr):
                     stack.append(operand)
                     if is_valid_blockwise_op(operand):
                         if next._name in dependencies:
-                            dependencies[next._name].add(operand._name)
+                            dependencies[next._name][operand._name] = None
                         dependents[operand._name].add(next._name)
                         expr_mapping[operand._name] = operand
                         expr_mapping[next._name] = next
